@@ -18,7 +18,7 @@ func TestCalibration(t *testing.T) {
 	for _, m := range mm {
 		t.Error(m)
 	}
-	if n < 500 {
+	if n < 250 {
 		t.Errorf("only %d labelled cases evaluated", n)
 	}
 }
